@@ -57,7 +57,8 @@ class MinimizerScipyOptimize(MinimizerBase):
         if self._par_bounds is None:
             self._save_state_dict["parameter_bounds"] = self._par_bounds
         else:
-            self._save_state_dict["parameter_bounds"] = np.array(self._par_bounds)
+            # a list of tuples, not an array: an array of numbers cannot hold the None of a limit that is removed later
+            self._save_state_dict["parameter_bounds"] = [tuple(_bounds) for _bounds in self._par_bounds]
         self._save_state_dict["function_value"] = self._fval
         self._save_state_dict["par_fixed"] = np.array(self._par_fixed)
         self._save_state_dict["par_err_outdated"] = self._par_err_outdated
@@ -73,7 +74,7 @@ class MinimizerScipyOptimize(MinimizerBase):
             self._par_err = np.array(self._par_err)
         self._par_bounds = self._save_state_dict["parameter_bounds"]
         if self._par_bounds is not None:
-            self._par_bounds = np.array(self._par_bounds)
+            self._par_bounds = [tuple(_bounds) for _bounds in self._par_bounds]
         self._fval = self._save_state_dict["function_value"]
         self._par_fixed = np.array(self._save_state_dict["par_fixed"])
         self._par_err_outdated = self._save_state_dict["par_err_outdated"]
